@@ -358,7 +358,6 @@ def callNativeBody (reenter : Reenter) (name : String) : M Val := do
             best := key
             guardVal best
           j := j + 1
-        unguardVal best
         let (k, v) := es.getD idx (.nil, .nil)
         let row ← initTable
         let ks ← initString "key".toUTF8.toList
@@ -368,6 +367,8 @@ def callNativeBody (reenter : Reenter) (name : String) : M Val := do
         tableInsert row (.obj vs) v
         dropGuard vs
         dropGuard row
+        -- the guard of the best key lives until the native returns (`_max_key_guard` is a local)
+        unguardVal best
         return .obj row
   | "__sort" => do
     let keyFn ← peek 0
